@@ -1669,7 +1669,7 @@ class mulgrid(object):
             for i in range(num_nodes):
                 items = gmsh.readline().strip().split(' ')
                 name, x, y = items[0], float(items[1]), float(items[2])
-                name = self.node_name_from_number(int(name), justfn, chars, spaces)
+                name = grid.node_name_from_number(int(name), justfn, chars, spaces)
                 grid.add_node(node(name, np.array([x, y])))
             while not '$Elements' in line: line = gmsh.readline()
             num_elements = int(gmsh.readline().strip())
@@ -1678,11 +1678,11 @@ class mulgrid(object):
                 element_type = int(items[1])
                 if element_type in [2, 3]: # triangle or quadrilateral
                     name = items[0]
-                    name = self.column_name_from_number(int(name), justfn, chars, spaces)
+                    name = grid.column_name_from_number(int(name), justfn, chars, spaces)
                     ntags = int(items[2])
                     colnodenumbers = [int(item) for item in items[3 + ntags:]]
-                    colnodenames = [[self.node_name_from_number(nodeno, justfn, chars, spaces),
-                                     nodeno][convention in [1, 2]] for nodeno in colnodenumbers]
+                    colnodenames = [grid.node_name_from_number(nodeno, justfn, chars, spaces)
+                                    for nodeno in colnodenumbers]
                     colnodes = [grid.node[v] for v in colnodenames]
                     grid.add_column(column(name, colnodes))
 
@@ -1703,7 +1703,7 @@ class mulgrid(object):
                     pos = [float(item) for item in items[:2]]
                     node_coords.append(pos)
                 for tag, pos in zip(node_tags, node_coords):
-                    name = self.node_name_from_number(tag, justfn, chars, spaces)
+                    name = grid.node_name_from_number(tag, justfn, chars, spaces)
                     grid.add_node(node(name, np.array(pos)))
             while not '$Elements' in line: line = gmsh.readline()
             items = gmsh.readline().strip().split(' ')
@@ -1715,10 +1715,10 @@ class mulgrid(object):
                     for ielt in range(num_block_elements):
                         items = gmsh.readline().strip().split(' ')
                         tag = items[0]
-                        name = self.column_name_from_number(int(tag), justfn, chars, spaces)
+                        name = grid.column_name_from_number(int(tag), justfn, chars, spaces)
                         colnodenumbers = [int(item) for item in items[1:]]
-                        colnodenames = [[self.node_name_from_number(nodeno, justfn, chars, spaces),
-                                         nodeno][convention in [1, 2]] for nodeno in colnodenumbers]
+                        colnodenames = [grid.node_name_from_number(nodeno, justfn, chars, spaces)
+                                        for nodeno in colnodenumbers]
                         colnodes = [grid.node[v] for v in colnodenames]
                         grid.add_column(column(name, colnodes))
                 else:
